@@ -98,7 +98,7 @@ def stepProf (toks : List String) : Option String :=
   | "pwire" :: tuples :: entries =>
     -- the same clients on real sockets (see harness runPwire): only the profile is observed
     let parseT (t : String) : Option Client :=
-      match t.splitOn "/" with
+      match (match t.splitOn "/" with | [a, b, m, "t"] => [a, b, m] | x => x) with
       | [a, b, m] => do
         let src ← parseOptIP a
         let dst ← parseOptIP b
